@@ -517,6 +517,29 @@ def fam_cc(ctx, mods, r, k, cid):
             ctx.violation(f"{PP}.cross_correlation:all:only_tri:"
                           + ("upper-triangle-differs" if not up_ok else
                              "lower-triangle-not-lag-mirrored"), pcase, cid)
+    # other units (a correlation does not depend on them): micro / mega
+    # scales, not powers of two
+    cu = float(r.choice([1e-8, 1e-3, 1e8]))
+    if not has_const_window(data, max(tp, tau_max)):
+        ok, PU = ctx.call(lambda: PurePy(data * cu, silence_level=3)
+                          .cross_correlation(tau_max=tp, lag_mode="all"))
+        ok2, AU = ctx.call(lambda: CouplingAnalysis(data * cu,
+                                                    silence_level=3)
+                           .cross_correlation(tau_max=tau_max,
+                                              lag_mode="all"))
+        ctx.evals(2)
+        ctx.count("unit_change_compared")
+        for nm, okx, lib, want in ((PP, ok, PU, RP), (CA, ok2, AU, R)):
+            if not okx:
+                ctx.violation(f"{nm}.cross_correlation:all:unit-change:"
+                              f"raises:{type(lib).__name__}",
+                              {**pcase, "unit": cu, "exc": repr(lib)}, cid)
+                continue
+            nbad, mx, idx = worst(lib, want, 4 * TOL_R)
+            if nbad:
+                ctx.violation(f"{nm}.cross_correlation:all:unit-change:"
+                              "differs", {**pcase, "unit": cu, "at": idx},
+                              cid)
     ok, PM = ctx.call(pp.cross_correlation, tau_max=tp, lag_mode="max")
     ctx.evals()
     if not ok:
